@@ -31,7 +31,7 @@ def lanelet(lid, polylines, **kw):
 
 
 def gen_lanelets(rng, nmax=8, base_id=1, types=False):
-    """list of lanelets: straight, wobbling, adjacent (shared boundary), crossing/overlapping, nested, disjoint"""
+    """list of lanelets: straight, wobbling, adjacent (shared boundary), crossing/overlapping, nested, disjoint, twins"""
     from commonroad.common.common_lanelet import LaneletType
     out = []
     n = rng.randint(1, nmax)
@@ -39,7 +39,7 @@ def gen_lanelets(rng, nmax=8, base_id=1, types=False):
     x0, y0 = q(rng, -8, 8), q(rng, -8, 8)
     kinds = []
     while len(out) < n:
-        kind = rng.choice(["straight", "wobble", "adjacent", "crossing", "nested", "disjoint", "successor"])
+        kind = rng.choice(["straight", "wobble", "adjacent", "crossing", "nested", "disjoint", "successor", "twin"])
         kw = {}
         if types:
             kw["lanelet_type"] = set(rng.sample(list(LaneletType), rng.randint(1, 2)))
@@ -63,6 +63,10 @@ def gen_lanelets(rng, nmax=8, base_id=1, types=False):
             prev = out[-1]
             bx0, by0 = prev.right_vertices[0]
             pl = strip(rng, bx0 + 0.25, by0 + 0.5, 2, 0.5, 0.5, wobble=False)
+        elif kind == "twin":
+            # the same strip modelled twice under two ids (e.g. vehicle lane and bus lane): identical coordinates
+            prev = out[-1]
+            pl = (prev.left_vertices.copy(), prev.center_vertices.copy(), prev.right_vertices.copy())
         elif kind == "successor":
             prev = out[-1]
             ex, ey = prev.right_vertices[-1]
